@@ -1,5 +1,5 @@
 (* C15 property theorems: statements + `exact lemma` only. *)
-From CJ Require Import Common.Base C15.Model C15.Proofs C15.ModelName C15.ProofsName C15.ModelObf C15.ProofsObf.
+From CJ Require Import Common.Base C15.Model C15.Proofs C15.ModelName C15.ProofsName C15.ModelObf C15.ProofsObf C15.ModelAny C15.ProofsAny.
 
 Theorem C15_request_format_roundtrip :
   forall p e, add_request_format p = Some e -> remove_request_format e = Some p.
@@ -149,3 +149,28 @@ Theorem C15_header_differs :
     obf_header sbm r1 <> obf_header sbm r2.
 Proof. exact header_differs_b. Qed.
 Print Assumptions C15_header_differs.
+
+(* ---- URL-less Any (protobuf wire codec abstract: unmarshal inverts marshal) ---- *)
+Theorem C15_anypb_nourl_roundtrip :
+  forall (mtype msg : Type) (type_of : msg -> mtype) (url_of : mtype -> string)
+         (marshal : msg -> bytes) (unmarshal : mtype -> bytes -> option msg),
+    (forall m, unmarshal (type_of m) (marshal m) = Some m) ->
+    forall m, unmarshal_anypb_to mtype msg url_of unmarshal (Some (pack_nourl msg marshal m)) (type_of m) = Ok (Some m).
+Proof. exact anypb_nourl_roundtrip. Qed.
+Print Assumptions C15_anypb_nourl_roundtrip.
+
+Theorem C15_anypb_url_roundtrip :
+  forall (mtype msg : Type) (type_of : msg -> mtype) (url_of : mtype -> string)
+         (marshal : msg -> bytes) (unmarshal : mtype -> bytes -> option msg),
+    (forall m, unmarshal (type_of m) (marshal m) = Some m) ->
+    forall m u, fix_legacy_url u = url_of (type_of m) ->
+      unmarshal_anypb_to mtype msg url_of unmarshal (Some {| any_url := u; any_value := marshal m |}) (type_of m) = Ok (Some m).
+Proof. exact anypb_url_roundtrip. Qed.
+Print Assumptions C15_anypb_url_roundtrip.
+
+Theorem C15_anypb_wrong_url_rejected :
+  forall (mtype msg : Type) (url_of : mtype -> string) (unmarshal : mtype -> bytes -> option msg) a dst,
+    fix_legacy_url (any_url a) <> EmptyString -> fix_legacy_url (any_url a) <> url_of dst ->
+    unmarshal_anypb_to mtype msg url_of unmarshal (Some a) dst = Err EWrongType.
+Proof. exact anypb_wrong_url_rejected. Qed.
+Print Assumptions C15_anypb_wrong_url_rejected.
